@@ -28,6 +28,16 @@ def lower_first(s):
     return s[0].lower() + s[1:]
 
 
+# zeroconf TXT records as announced by real devices (Apple TV 4K / AirPort Express style)
+TXT_RECORDS = {
+    "RAOP": {"md": "0,1,2", "et": "0,3,5", "cn": "0,1,2,3", "tp": "UDP", "am": "AppleTV6,2", "vs": "540.31.41", "ft": "0x4A7FDFD5,0xBC157FDE"},
+    "AirPlay": {"deviceid": "AA:BB:CC:DD:EE:FF", "srcvers": "540.31.41", "pi": "7c4f8d6e-0000-0000-0000-000000000000",
+                "acl": "0", "flags": "0x18644"},
+    "Companion": {"rpmd": "AppleTV6,2", "rpfl": "0x36782", "rpvr": "250.3", "rpha": "9948cfb6da55"},
+    "MRP": {"modelname": "Apple TV", "allowpairing": "YES", "systembuildversion": "17K82", "macaddress": "AA:BB:CC:DD:EE:FF"},
+    "DMAP": {"ctlN": "Apple TV", "hG": "00000000-1111-2222-3333-444444444444", "txtvers": "1"},
+}
+
 HAP_CREDENTIALS = ":".join(["aa" * 32, "bb" * 32, "cc" * 8, "dd" * 8])
 
 
@@ -41,8 +51,11 @@ def default_spec(**kw):
                        also yields an MRP SetupData running over the AirPlay remote-control tunnel
     unified            AirPlay advertises HasUnifiedAdvertiserInfo: airplay.setup() also yields RAOP
                        when the configuration has no RAOP service
+    txt                the services carry the TXT records real devices announce (TXT_RECORDS) instead
+                       of empty ones: what set-up derives from them (metadata types, models …) is in play
     """
-    spec = {"services": list(TEXT_ORDER), "companion_creds": True, "video": True, "tunnel": False, "unified": False}
+    spec = {"services": list(TEXT_ORDER), "companion_creds": True, "video": True, "tunnel": False, "unified": False,
+            "txt": False}
     spec.update(kw)
     return spec
 
@@ -98,6 +111,8 @@ async def _build(spec, fail=()):
             if spec["tunnel"]:
                 props.update({"model": "AppleTV6,2", "osvers": "14.0"})
                 cred = HAP_CREDENTIALS
+        if spec.get("txt"):
+            props = dict(TXT_RECORDS[name], **props)
         if p == Protocol.Companion and spec["companion_creds"]:
             cred = HAP_CREDENTIALS
         config.add_service(MutableService("id-" + p.name, p, 1234, props, credentials=cred))
@@ -179,6 +194,8 @@ PATH_SPECS = [
     ("unified", default_spec(services=["AirPlay"], unified=True)),
     ("unified+others", default_spec(services=["MRP", "DMAP", "Companion", "AirPlay"], unified=True)),
     ("tunnel+unified", default_spec(services=["AirPlay", "Companion"], tunnel=True, unified=True)),
+    ("native+txt-records", default_spec(txt=True)),
+    ("tunnel+unified+txt-records", default_spec(services=["AirPlay", "Companion"], tunnel=True, unified=True, txt=True)),
 ] + [("only-" + n, default_spec(services=[n])) for n in TEXT_ORDER]
 
 
